@@ -255,7 +255,7 @@ def run_real(case: dict[str, Any], origin: Origin, meter: ReadMeter) -> dict[str
     root.setLevel(logging.DEBUG)
     cfg = FetchConfig(
         parallel_threshold_bytes=c["parallelThreshold"], chunk_size_bytes=c["chunkSize"], max_parallel_requests=c["maxParallel"],
-        timeout_seconds=c.get("timeout", 3.0), max_fetch_bytes=c["maxFetch"], max_decompressed_bytes=c["maxDecompressed"],
+        timeout_seconds=c.get("timeout", 30.0), max_fetch_bytes=c["maxFetch"], max_decompressed_bytes=c["maxDecompressed"],
         max_redirects=c["maxRedirects"], speculative_retry_multiplier=c.get("hedgeMultiplier", 0.0),
         max_speculative_hedges=c.get("maxHedges", 4),
     )
@@ -590,8 +590,25 @@ def real_requests(real: dict[str, Any]) -> list[tuple[str, str, str, Any]]:
     return [(e["method"], e["host"], e["target"], tuple(e["range"]) if e["range"] else None) for e in real["log"] if not e.get("wire_retry")]
 
 
+def declared_sizes(case: dict[str, Any]) -> set[int]:
+    """Every object size the script can make the fetcher believe (stored sizes, HEAD Content-Length, Content-Range totals)."""
+    out = {int(case.get("object_len", 1))}
+    for p in case["script"]["paths"]:
+        out.add(len(p.get("object", "")) // 2)
+        for sp in list(p.get("head") or []) + list(p.get("range") or []):
+            cl = sp.get("cl")
+            if isinstance(cl, str) and cl.isascii() and cl.isdigit() and len(cl) < 12:
+                out.add(int(cl))
+            cr = sp.get("cr")
+            txt = cr["auto"] if isinstance(cr, dict) else (cr if isinstance(cr, str) else "")
+            m = re.search(r"(\d{1,11})\s*$", txt)
+            if m and m.group(1).isascii():
+                out.add(int(m.group(1)))
+    return {n for n in out if n <= case["cfg"]["maxFetch"]} or {1}
+
+
 def correspond(ctx: Any, case_id: dict[str, Any], case: dict[str, Any], real: dict[str, Any]) -> None:
-    nch = -(-max(1, case.get("object_len", 1)) // case["cfg"]["chunkSize"])
+    nch = max(-(-max(1, n) // case["cfg"]["chunkSize"]) for n in declared_sizes(case))
     m = run_model(ctx, case, rotations=min(nch, 64) if nch > 1 else 0)
     if m is None:
         return
@@ -744,7 +761,7 @@ def gen_case(rng: Any) -> dict[str, Any]:
     cfg = {
         "parallelThreshold": threshold, "chunkSize": chunk, "maxParallel": rng.choice([1, 1, 2, 8]), "maxFetch": max_fetch,
         "maxDecompressed": rng.choice([None, None, None, len(decoded), max(0, len(decoded) - 1), 10, 1 << 22]),
-        "maxRedirects": rng.choice([0, 1, 2, 2, 3, 5]), "hedgeMultiplier": 0.0, "maxHedges": 4, "timeout": 3.0,
+        "maxRedirects": rng.choice([0, 1, 2, 2, 3, 5]), "hedgeMultiplier": 0.0, "maxHedges": 4, "timeout": 30.0,
     }
     # ---- final path behaviour
     fin = "/obj" + rng.choice(["", "/data.arrow", ";v=1", "/a/b/c"])
@@ -949,7 +966,7 @@ def gen_hedge_case(rng: Any) -> dict[str, Any]:
     presigned = rng.random() < 0.3
     ui, q, fr, secrets = gen_url_decor(rng, presigned)
     cfg = {"parallelThreshold": 1, "chunkSize": chunk, "maxParallel": rng.choice([4, 8, 16]), "maxFetch": 1 << 20, "maxDecompressed": None,
-           "maxRedirects": 2, "hedgeMultiplier": rng.choice([1.5, 2.0]), "maxHedges": rng.choice([0, 1, 1, 4]), "timeout": 3.0}
+           "maxRedirects": 2, "hedgeMultiplier": rng.choice([1.5, 2.0]), "maxHedges": rng.choice([0, 1, 1, 4]), "timeout": 30.0}
     fin = "/obj"
     paths = [{"path": fin, "object": obj.hex(), "head": [{"status": 200, "cl": str(n), "ar": "bytes"}],
               "get": [{"status": 200, "body": {"k": "object"}}], "range": [spec], "rangeAt": range_at}]
@@ -964,7 +981,7 @@ def corpus() -> list[dict[str, Any]]:
     obj = bytes(range(256)) * 4
     n = len(obj)
     base_cfg = {"parallelThreshold": 1 << 30, "chunkSize": 1000, "maxParallel": 2, "maxFetch": 1 << 20, "maxDecompressed": None,
-                "maxRedirects": 2, "hedgeMultiplier": 0.0, "maxHedges": 4, "timeout": 3.0}
+                "maxRedirects": 2, "hedgeMultiplier": 0.0, "maxHedges": 4, "timeout": 30.0}
     S = SECRETS
 
     def mk(url: str, paths: list[dict[str, Any]], cfg: dict[str, Any] | None = None, validator: Any = "default", **kw: Any) -> dict[str, Any]:
@@ -1416,15 +1433,15 @@ def run_fetch_case(ctx: Any, case: dict[str, Any], tags: tuple[str, ...] = ()) -
 def run(ctx: Any) -> None:
     rng = ctx.rng
     try:
-        check_redact(ctx, url_shapes(rng, ctx.budget(2000, 50000)))
+        check_redact(ctx, url_shapes(rng, ctx.budget(2000, 30000)))
         check_pure(ctx)
         check_chunk_range(ctx)
         check_readers(ctx)
         for case in corpus():
             run_fetch_case(ctx, case, ("src:corpus",))
-        for _ in range(ctx.budget(600, 15000)):
+        for _ in range(ctx.budget(600, 7000)):
             run_fetch_case(ctx, gen_case(rng), ("src:grammar",))
-        for _ in range(ctx.budget(12, 150)):
+        for _ in range(ctx.budget(12, 100)):
             run_fetch_case(ctx, gen_hedge_case(rng), ("src:hedge",))
     finally:
         _teardown()
@@ -1436,6 +1453,9 @@ def run(ctx: Any) -> None:
 
 def replay(ctx: Any, case: dict[str, Any]) -> None:
     try:
+        if case is None:  # a "no-longer-checks" record carries the broken pieces, not one failing input
+            ctx.note("replay", "record has no single case; the mismatching case is under broken[].case")
+            return
         k = case.get("kind")
         if k == "fetch":
             run_fetch_case(ctx, case, ("src:replay",))
